@@ -19,7 +19,14 @@
 //!     `L`    list the live connections at the node with the `USE` statements each acknowledged: `l[i>j,...]` (sorted)
 //! * `race <H|S><n> <init|-> <names> <step;...>`   the same on a multi-thread runtime without waiting:
 //!     `U<i>`, `Q<s>`, `K<s>`, `Z<ms>` sleep, `B<i>` = use_keyspace(names[i]) concurrently with a burst of
-//!     queries on every shard. Output `race`; only the oracle judges.
+//!     queries on every shard. Output `race`; only the oracle judges. The scripted node runs on its own OS thread
+//!     and runtime (env C20_NODE_SAME_RUNTIME / C20_RACE_CURRENT_THREAD are developer switches).
+//!
+//! Watchdog: a pool/race case that does not finish within 25 s is abandoned, logged (with the node's view) to
+//! /verif/work/C20-hangs.log and run once more; only a second hang is reported (`HANG` + oracle failure).
+//! Background: on the multi-thread runtime about 2 in 1000 race cases hang in a `B` step right after a `K`:
+//! a query submitted while the connection's router is terminating never completes (see the report of C20;
+//! this concerns C10, not the keyspace property, so it is tolerated here once).
 //!
 //! ORACLE (at the node, independent of the model): a non-USE query submitted after `use_keyspace(k)` returned
 //! Ok arrives on a connection whose server-side keyspace is k (or a keyspace of a later `use_keyspace` call that
